@@ -136,19 +136,6 @@ Proof.
   rewrite Ha. reflexivity.
 Qed.
 
-(** a run of commands in one database: the logged ones, in order, each once *)
-Definition aof_push_all (log : list (list frame)) (dbi : Z) (q : list (list frame)) : list (list frame) :=
-  fold_left (fun l p => if is_logged p then aof_push l dbi p else l) q log.
-(** EXEC appends the queued write commands in queue (= execution) order *)
-Lemma exec_queue_aof now dbi : forall q s acc,
-  s_aof (snd (exec_queue now s dbi q acc)) = aof_push_all (s_aof s) dbi q.
-Proof.
-  induction q as [|parts q IH]; intros s acc; cbn [exec_queue]; [reflexivity|].
-  pose proof (nc_aof now s 0 dbi parts None) as Hn.
-  destruct (normal_command now s 0 dbi parts None) as [rep s1]. cbn [snd] in Hn.
-  rewrite IH, Hn. reflexivity.
-Qed.
-
 (** ================= 3. commands that are not logged leave the database alone ================= *)
 (** [lazy_removed now d d']: d' is d without some entries that had already expired at [now]
     (the lazy expiry of get: data entry and deadline-index entry removed) *)
@@ -736,8 +723,13 @@ Definition redo_cmds (now : Z) (cmds : list dcmd) (dbs : list db) : list db :=
   fold_left (fun dbs x => step_dbs now dbs (fst x) (snd x) None) cmds dbs.
 Definition push_all (log : list (list frame)) (cmds : list dcmd) : list (list frame) :=
   fold_left (fun l x => if is_logged (snd x) then aof_push l (fst x) (snd x) else l) cmds log.
-Lemma aof_push_all_eq log dbi q : aof_push_all log dbi q = push_all log (map (fun p => (dbi, p)) q).
-Proof. revert log. induction q as [|p q IH]; intros log; [reflexivity|]. cbn [map]. unfold aof_push_all, push_all in *. cbn [fold_left fst snd]. apply IH. Qed.
+(** the queue of an EXEC with the database each command runs in: a queued SELECT (1ecc022) moves
+    the commands after it *)
+Fixpoint queue_dbs (dbi : Z) (q : list (list frame)) : list dcmd :=
+  match q with
+  | [] => []
+  | p :: r => (dbi, p) :: queue_dbs (if beq (queued_name p) (bs "SELECT") then sel_db dbi p else dbi) r
+  end.
 
 Inductive ev := EConn (c : Z) | EClose (c : Z) | EFrame (c : Z) (req : frame).
 (** one event of the single command thread at clock reading [now]; no oracle: commands whose
@@ -760,17 +752,16 @@ Definition ev_cmds (now : Z) (s : server) (e : ev) : list dcmd :=
       | None => []
       | Some cn =>
           let command := upper (trim nm) in
-          if beq command (bs "MULTI") then []
+          if c_intx cn && negb (mem_name command tx_not_queued) then []
+          else if beq command (bs "MULTI") then []
           else if beq command (bs "EXEC") then
             (if c_intx cn then
-               if existsb (fun kb => was_modified_since now s (c_db cn) (fst kb) (snd kb)) (c_watched cn)
-               then [] else map (fun p => (c_db cn, p)) (c_queue cn)
+               if watch_violated now s cn then [] else queue_dbs (c_db cn) (c_queue cn)
              else [])
           else if beq command (bs "DISCARD") then []
           else if beq command (bs "WATCH") then []
           else if beq command (bs "UNWATCH") then []
           else if beq command (bs "AUTH") then []
-          else if c_intx cn && negb (mem_name command tx_not_queued) then []
           else [(c_db cn, FBulk nm :: rest)]
       end
   | _ => []
@@ -821,18 +812,59 @@ Record ev_spec (now : Z) (s s' : server) (cmds : list dcmd) : Prop := {
 Lemma ev_spec_nil now s s' : linv s' -> s_dbs s' = s_dbs s -> s_aof s' = s_aof s -> ev_spec now s s' [].
 Proof. intros Hi Hd Ha. constructor; auto. Qed.
 
-Lemma exec_queue_spec now dbi : forall q s acc,
-  linv s -> ev_spec now s (snd (exec_queue now s dbi q acc)) (map (fun p => (dbi, p)) q).
+Lemma queue_dbs_ok : forall q dbi, db_ok dbi -> forallb cmd_ok q = true -> forallb dcmd_ok (queue_dbs dbi q) = true.
 Proof.
-  induction q as [|parts q IH]; intros s acc Hi; cbn [exec_queue map].
+  induction q as [|p q IH]; intros dbi Hd Hq; [reflexivity|]. cbn [forallb] in Hq. apply andb_prop in Hq as [H1 H2].
+  cbn [queue_dbs forallb]. rewrite IH; [|destruct (beq _ _); [apply sel_db_ok|]; exact Hd|exact H2].
+  unfold dcmd_ok, db_ok in *. cbn [fst snd]. rewrite H1. lia.
+Qed.
+Lemma exec_queue_spec now c : forall q s dbi acc cn,
+  linv s -> zlookup c (s_conns s) = Some cn -> c_db cn = dbi ->
+  ev_spec now s (snd (exec_queue now s c dbi q acc)) (queue_dbs dbi q).
+Proof.
+  induction q as [|parts q IH]; intros s dbi acc cn Hi Hc Hdb; cbn [exec_queue queue_dbs].
   - apply ev_spec_nil; auto.
-  - pose proof (nc_dbs now s 0 dbi parts None) as Hd. pose proof (nc_aof now s 0 dbi parts None) as Ha.
-    destruct (nc_noconn now s 0 dbi parts None (linv_pw _ Hi) (linv_zero _ Hi)) as [Hc Hp].
-    destruct (normal_command now s 0 dbi parts None) as [rep s1]. cbn [snd] in *.
-    assert (Hi1 : linv s1) by (eapply linv_same; [exact Hi|rewrite Hp, (linv_pw _ Hi); reflexivity|exact Hc]).
-    destruct (IH s1 (rep :: acc) Hi1) as [X1 X2 X3]. constructor; [exact X1| |].
-    + rewrite X2, Hd. reflexivity.
-    + rewrite X3, Ha. reflexivity.
+  - assert (Hc0 : c <> 0) by (intros ->; rewrite (linv_zero _ Hi) in Hc; discriminate).
+    destruct (beq (queued_name parts) (bs "SELECT")).
+    + (* a queued SELECT runs for the connection that sent EXEC *)
+      pose proof (nc_dbs now s c dbi parts None) as Hd. pose proof (nc_aof now s c dbi parts None) as Ha.
+      destruct (nc_conn now s c dbi parts None cn (linv_pw _ Hi) Hc) as (Hp & (cn' & Hc' & Hdb' & Hix & Hqx) & Hoth).
+      destruct (normal_command now s c dbi parts None) as [rep s1]. cbn [snd] in *.
+      rewrite Hc'.
+      assert (Hi1 : linv s1).
+      { constructor; [exact Hp| |].
+        - intros c' cx Hl. destruct (Z.eq_dec c' c) as [->|Hn].
+          + rewrite Hc' in Hl. inversion Hl; subst cx. rewrite Hdb', Hqx.
+            destruct (linv_conns _ Hi c cn Hc) as [A B]. split; [apply sel_db_ok; exact A|exact B].
+          + rewrite (Hoth c' Hn) in Hl. exact (linv_conns _ Hi c' cx Hl).
+        - rewrite (Hoth 0 (fun X => Hc0 (eq_sym X))). exact (linv_zero _ Hi). }
+      rewrite Hdb', Hdb.
+      destruct (IH s1 (sel_db dbi parts) (rep :: acc) cn' Hi1 Hc' (eq_trans Hdb' (f_equal (fun x => sel_db x parts) Hdb))) as [X1 X2 X3].
+      constructor; [exact X1| |].
+      * rewrite X2, Hd. reflexivity.
+      * rewrite X3, Ha. reflexivity.
+    + pose proof (nc_dbs now s 0 dbi parts None) as Hd. pose proof (nc_aof now s 0 dbi parts None) as Ha.
+      destruct (nc_noconn now s 0 dbi parts None (linv_pw _ Hi) (linv_zero _ Hi)) as [Hcs Hp].
+      destruct (normal_command now s 0 dbi parts None) as [rep s1]. cbn [snd] in *.
+      assert (Hi1 : linv s1) by (eapply linv_same; [exact Hi|rewrite Hp, (linv_pw _ Hi); reflexivity|exact Hcs]).
+      assert (Hc1 : zlookup c (s_conns s1) = Some cn) by (rewrite Hcs; exact Hc).
+      destruct (IH s1 dbi (rep :: acc) cn Hi1 Hc1 Hdb) as [X1 X2 X3]. constructor; [exact X1| |].
+      * rewrite X2, Hd. reflexivity.
+      * rewrite X3, Ha. reflexivity.
+Qed.
+(** EXEC appends the queued write commands in queue (= execution) order, each under the database
+    it ran in *)
+Lemma exec_queue_aof now c q s dbi acc cn :
+  linv s -> zlookup c (s_conns s) = Some cn -> c_db cn = dbi ->
+  s_aof (snd (exec_queue now s c dbi q acc)) = push_all (s_aof s) (queue_dbs dbi q).
+Proof. intros Hi Hc Hd. exact (es_log _ _ _ _ (exec_queue_spec now c q s dbi acc cn Hi Hc Hd)). Qed.
+Lemma unwatch_all_rest : forall w s,
+  s_dbs (unwatch_all s w) = s_dbs s /\ s_conns (unwatch_all s w) = s_conns s /\
+  s_password (unwatch_all s w) = s_password s /\ s_aof (unwatch_all s w) = s_aof s.
+Proof.
+  unfold unwatch_all. induction w as [|kb w IH]; intros s; cbn [fold_left]; [auto|].
+  destruct (IH (set_trk s (wkey_db (fst kb)) (unregister_watch (get_trk s (wkey_db (fst kb))) (wkey_key (fst kb))))) as (A & B & C & D).
+  rewrite A, B, C, D. auto.
 Qed.
 
 Lemma ev_step_spec now s e :
@@ -864,6 +896,9 @@ Proof.
               s_conns s' = zset_ c cn' (s_conns s) ->
               ev_spec now s (if is_quit (FArray parts) then del_conn s' c else s') []).
     { intros cn' s' Hd' Hq' Hd Hp Ha Hcs. apply Hq. apply ev_spec_nil; auto. eapply (linv_set s c cn'); eauto. }
+    destruct (c_intx cn && negb (mem_name (upper (trim nm)) tx_not_queued)).
+    { split; [|reflexivity]. cbn [snd]. eapply Hconn; try reflexivity; [exact Hdb|].
+      cbn [with_tx c_queue]. rewrite forallb_app, Hqu. cbn [forallb]. rewrite Hok. reflexivity. }
     destruct (beq (upper (trim nm)) (bs "MULTI")).
     { split; [|reflexivity]. destruct (c_intx cn); [apply Hq; exact Hsame|]. cbn [snd].
       eapply Hconn; try reflexivity; [exact Hdb|reflexivity]. }
@@ -871,29 +906,28 @@ Proof.
     { unfold h_exec. destruct (c_intx cn); [|split; [apply Hq; exact Hsame|reflexivity]]. cbn [negb].
       assert (Hi1 : linv (set_conn s c (clear_tx cn))).
       { eapply (linv_set s c (clear_tx cn)); [exact Hi|exact Hc0|exact Hdb|reflexivity|reflexivity|reflexivity]. }
-      destruct (existsb _ (c_watched cn)).
+      destruct (watch_violated now s cn).
       { split; [|reflexivity]. cbn [snd]. eapply Hconn; try reflexivity; [exact Hdb|reflexivity]. }
-      split.
-      - pose proof (exec_queue_spec now (c_db cn) (c_queue cn) (set_conn s c (clear_tx cn)) [] Hi1) as X.
-        destruct (exec_queue now (set_conn s c (clear_tx cn)) (c_db cn) (c_queue cn) []) as [reps s2]. cbn [snd] in *.
-        apply Hq. destruct X as [X1 X2 X3]. constructor; [exact X1|exact X2|exact X3].
-      - rewrite forallb_forall in *. intros [d p] Hin. apply in_map_iff in Hin as (p' & Hp & Hin). inversion Hp; subst.
-        unfold dcmd_ok, db_ok in *. cbn [fst snd]. rewrite (Hqu _ Hin). lia. }
+      split; [|apply queue_dbs_ok; assumption].
+      pose proof (exec_queue_spec now c (c_queue cn) (set_conn s c (clear_tx cn)) (c_db cn) [] (clear_tx cn) Hi1
+                    (zlookup_zset_same _ _ _) eq_refl) as X.
+      destruct (exec_queue now (set_conn s c (clear_tx cn)) c (c_db cn) (c_queue cn) []) as [reps s2]. cbn [snd] in *.
+      apply Hq. destruct X as [X1 X2 X3]. constructor; [exact X1|exact X2|exact X3]. }
     destruct (beq (upper (trim nm)) (bs "DISCARD")).
     { split; [|reflexivity]. destruct (c_intx cn); [|apply Hq; exact Hsame]. cbn [negb snd].
       eapply Hconn; try reflexivity; [exact Hdb|reflexivity]. }
     destruct (beq (upper (trim nm)) (bs "WATCH")).
     { split; [|reflexivity]. destruct (len parts <? 2); [apply Hq; exact Hsame|].
       destruct (c_intx cn); [apply Hq; exact Hsame|].
-      destruct (watch_loop_partial (get_trk s (c_db cn)) rest (c_watched cn)) as [[t' w'] okb].
+      destruct (watch_loop_partial (c_db cn) (get_trk s (c_db cn)) rest (c_watched cn)) as [[t' w'] okb].
       cbn [snd]. eapply Hconn; try reflexivity; [exact Hdb|exact Hqu]. }
     destruct (beq (upper (trim nm)) (bs "UNWATCH")).
-    { split; [|reflexivity]. cbn [snd]. eapply Hconn; try reflexivity; [exact Hdb|exact Hqu]. }
+    { split; [|reflexivity]. cbn [snd]. destruct (unwatch_all_rest (c_watched cn) s) as (U1 & U2 & U3 & U4).
+      eapply (Hconn (with_tx cn (c_intx cn) (c_queue cn) [])); [exact Hdb|exact Hqu| | | |];
+        cbn [set_conn s_dbs s_password s_aof s_conns]; try assumption.
+      rewrite U2. reflexivity. }
     destruct (beq (upper (trim nm)) (bs "AUTH")).
     { split; [|reflexivity]. rewrite (h_auth_nopw s c parts (linv_pw _ Hi)). apply Hq. exact Hsame. }
-    destruct (c_intx cn && negb (mem_name (upper (trim nm)) tx_not_queued)).
-    { split; [|reflexivity]. cbn [snd]. eapply Hconn; try reflexivity; [exact Hdb|].
-      cbn [with_tx c_queue]. rewrite forallb_app, Hqu. cbn [forallb]. rewrite Hok. reflexivity. }
     (* a command executed directly *)
     split; [|cbn [forallb]; unfold dcmd_ok, db_ok in *; cbn [fst snd]; rewrite Hok; lia].
     apply Hq.
@@ -1257,4 +1291,19 @@ Lemma sample_history_ok :
   live_fresh (trace_of sample_history) dbs0 = true /\
   redo_fresh 7 (aof_log (run_tevs sample_history)) (0, dbs0) = true /\
   len (aof_log (run_tevs sample_history)) = 12 /\ len (d_data (get_db (run_tevs sample_history) 3)) = 2.
+Proof. repeat (apply conj; [vm_compute; reflexivity|]). vm_compute; reflexivity. Qed.
+
+(** a queued SELECT (1ecc022): the writes after it are logged - and redone - under the new database *)
+Definition queued_select_history : list tev :=
+  hist [[bs "MULTI"]; [bs "SET"; bs "a"; bs "1"]; [bs "SELECT"; bs "1"]; [bs "SET"; bs "b"; bs "2"];
+        [bs "GET"; bs "b"]; [bs "EXEC"]; [bs "APPEND"; bs "b"; bs "3"]].
+Lemma queued_select_history_ok :
+  forallb (fun te => ev_ok (snd te)) queued_select_history = true /\
+  live_fresh (trace_of queued_select_history) dbs0 = true /\
+  redo_fresh 0 (aof_log (run_tevs queued_select_history)) (0, dbs0) = true /\
+  aof_log (run_tevs queued_select_history) =
+    [aof_select 0; [FBulk (bs "SET"); FBulk (bs "a"); FBulk (bs "1")];
+     aof_select 1; [FBulk (bs "SET"); FBulk (bs "b"); FBulk (bs "2")]; [FBulk (bs "APPEND"); FBulk (bs "b"); FBulk (bs "3")]] /\
+  s_dbs (replay 0 (aof_log (run_tevs queued_select_history))) = s_dbs (run_tevs queued_select_history) /\
+  len (d_data (get_db (run_tevs queued_select_history) 1)) = 1.
 Proof. repeat (apply conj; [vm_compute; reflexivity|]). vm_compute; reflexivity. Qed.
